@@ -23,7 +23,21 @@ PUBLIC = ["a", "b", "c", "d", "fn", "Cls", "val", "X", "y2", "helper", "k9", "é
 PRIVATE = ["_p", "_q", "__r", "__version__"]
 
 SUB_SRC = "sx = 'sx'\nsy = ['sy']\ndef sz():\n    return 'sz'\n_sp = 0\nclass SC:\n    pass\n"
-LEAF_SRC = "lf = ('lf',)\ndef lg():\n    return 'lg'\n"
+LEAF_SRC = "lf = ('lf',)\ndef lg():\n    return 'lg'\n_lp = ['_lp']\nimport json as ljson\n"
+# p<T>/_compat.py: a "compat" submodule of the package.  Besides ordinary public and private definitions it binds names to
+# MODULE OBJECTS (`json` picked by try/except, `osp`, the sibling submodule under the name `csub`): re-exported by the
+# package `from ._compat import text_type, json` these are attributes of an own submodule, not submodules.
+COMPAT_SRC = ("try:\n    import simplejson_c19_missing as json\nexcept ImportError:\n    import json\n"
+              "import os.path as osp\nfrom . import sub as csub\ntext_type = str\ndef cfn():\n    return 'cfn'\n"
+              "class CK:\n    pass\ndef _fast():\n    return '_fast'\n_cpriv = ['_cpriv']\n")
+# submodule (relative to the package p<T>) -> (public names, private names, names bound to module objects)
+OWN_NAMES = {
+    "sub": (["sx", "sy", "sz", "SC"], ["_sp"], []),
+    "_compat": (["text_type", "cfn", "CK"], ["_fast", "_cpriv"], ["json", "osp", "csub"]),
+    "sp.leaf": (["lf", "lg"], ["_lp"], ["ljson"]),
+}
+ALIASES_PUBLIC = PUBLIC + ["loads", "dumps2", "Alias"]
+ALIASES_PRIVATE = PRIVATE + ["_h", "_impl"]
 FOREIGN_SRC = "fz = ['fz']\ndef fy():\n    return 'fy'\nclass FK:\n    pass\n_fp = 1\nfd = {}\ni0 = 0\n"
 MX_SRC = "xq = {'xq': 1}\n"
 
@@ -304,6 +318,51 @@ class ModGen:
         for n, h in binds:
             self.bind(n, h)
 
+    def st_own_mix(self):
+        """`from <submodule of the target's package> import n1 [as a1], n2 [as a2], ...`: 1-3 names of that submodule in
+        random order - public, private, or bound to a module object there - each under no alias, a public alias or a
+        private alias (all four private/public combinations of source name and alias), relative or absolute.  For a
+        package __init__ (kinds init / subinit) these are re-exports from an own submodule; for a module inside the
+        package (inpkg / leaf) the same statements read a sibling, i.e. are merely imported from elsewhere."""
+        rng, u, kind = self.rng, self.u, self.kind
+        P = u.P
+        if kind == "init":
+            sm = rng.choice(["sub", "_compat", "_compat", "sp.leaf"])
+            rel, own = "." + sm, True
+        elif kind == "subinit":
+            sm = rng.choice(["sp.leaf", "sp.leaf", "sub", "_compat"])
+            rel, own = (".leaf", True) if sm == "sp.leaf" else (".." + sm, False)
+        elif kind == "inpkg":
+            sm = rng.choice(["sub", "_compat", "sp.leaf"])
+            rel, own = "." + sm, False
+        elif kind == "leaf":
+            sm = rng.choice(["sub", "_compat"])
+            rel, own = ".." + sm, False
+        else:
+            return self.st_foreign()
+        pub, priv, modobj = OWN_NAMES[sm]
+        picked = []
+        for _ in range(rng.choice([1, 2, 2, 3])):
+            r = rng.random()
+            pool = pub if (r < 0.40 or (r >= 0.70 and not modobj)) else priv if r < 0.70 else modobj
+            n = rng.choice(pool)
+            if n not in [x for x, _a in picked]:
+                r2 = rng.random()
+                alias = None if r2 < 0.45 else rng.choice(ALIASES_PUBLIC) if r2 < 0.80 else rng.choice(ALIASES_PRIVATE)
+                picked.append((n, alias))
+        rng.shuffle(picked)
+        frm = rel if rng.random() < 0.6 else "%s.%s" % (P, sm)
+        body = ", ".join(n if a is None else "%s as %s" % (n, a) for n, a in picked)
+        if len(picked) > 1 and rng.random() < 0.2:
+            body = "(" + body.replace(", ", ",\n    ") + ")"
+        self.emit("from %s import %s" % (frm, body))
+        for n, a in picked:
+            self.bind(a or n, "import_own" if own else "import_foreign")
+        if kind == "init":
+            self.bind(sm.split(".")[0], "submodule")
+        elif own:
+            self.bind("leaf", "submodule")
+
     def _all_entries(self, k=None):
         rng = self.rng
         names = [n for n in self.bound if n != "__all__"]
@@ -439,7 +498,7 @@ class ModGen:
         want_all = rng.random() < 0.42
         n_items = rng.randint(0, max_items)
         makers = [(self.st_def, 14), (self.st_async, 5), (self.st_class, 8), (self.st_assign, 14), (self.st_tuple, 6),
-                  (self.st_attr, 3), (self.st_shapes, 10), (self.st_del, 7), (self.st_ann, 6), (self.st_foreign, 12), (self.st_own, 14), (self.st_cond, 7),
+                  (self.st_attr, 3), (self.st_shapes, 10), (self.st_del, 7), (self.st_ann, 6), (self.st_foreign, 12), (self.st_own, 12), (self.st_own_mix, 9), (self.st_cond, 7),
                   (self.st_other, 5)]
         if want_all:
             makers += [(self.st_all, 10), (self.st_all_aug, 6)]
@@ -469,6 +528,7 @@ def gen_universe(rng, tag, kind, max_items=7):
     files = {
         u.P + "/__init__.py": rng.choice(["", "pk = 'pk'\n", "from . import sub\n"]),
         u.P + "/sub.py": SUB_SRC,
+        u.P + "/_compat.py": COMPAT_SRC,
         u.P + "/a.py": "aa = 1\n",
         u.P + "/sp/__init__.py": "spx = ['spx']\n",
         u.P + "/sp/leaf.py": LEAF_SRC,
@@ -480,7 +540,10 @@ def gen_universe(rng, tag, kind, max_items=7):
     return u, g, files
 
 
-UNINSPECTABLE = ["missing", "syntax", "namespace", "builtin", "extension", "nonstr_all", "undecodable"]
+# missing_dotted: `nopkg.mod`, no such package; in_module: `m.sub` where m.py is a plain module (find_spec raises
+# ModuleNotFoundError for both: `ModuleHandle.filename` answers None, locating the module then fails)
+UNINSPECTABLE = ["missing", "syntax", "namespace", "builtin", "extension", "nonstr_all", "undecodable",
+                 "missing_dotted", "in_module"]
 
 
 def gen_program(rng, u, target, star_names, extra_targets=(), g=None):
@@ -579,6 +642,7 @@ def gen_facade_universe(rng, tag, kind):
     files = {
         u.P + "/__init__.py": "",
         u.P + "/sub.py": SUB_SRC,
+        u.P + "/_compat.py": COMPAT_SRC,
         u.P + "/a.py": "aa = 1\n",
         u.P + "/sp/__init__.py": "spx = ['spx']\n",
         u.P + "/sp/leaf.py": LEAF_SRC,
